@@ -255,7 +255,7 @@ func convertPeerAuthentication(rootNamespace string, cfg, nsCfg, rootCfg *securi
 
 	scope := security.Scope_WORKLOAD_SELECTOR
 	// violates case #1, #2, or #3
-	if cfg.Namespace == rootNamespace || pa.Selector == nil || len(pa.PortLevelMtls) == 0 {
+	if cfg.Namespace == rootNamespace || len(pa.GetSelector().GetMatchLabels()) == 0 || len(pa.PortLevelMtls) == 0 {
 		log.Debugf("skipping PeerAuthentication %s/%s for ambient since it isn't a workload policy with port level mTLS", cfg.Namespace, cfg.Name)
 		return nil
 	}
